@@ -103,8 +103,19 @@ def param_script(seed):
     s.op("vnacal_new_solve $vn")
     s.op("ci=vnacal_add_calibration $vc \"one\" $vn")
     s.op("ci2=vnacal_add_calibration $vc \"one\" $vn")
+    # replace an existing calibration by name (the solved state moves into
+    # the vnacal_t, so each add needs its own solve)
     s.op("vnacal_new_solve $vn")
-    s.op("ci3=vnacal_add_calibration $vc \"two\" $vn")
+    s.op("ci3=vnacal_add_calibration $vc \"one\" $vn")
+    s.op("dump_vnacal $vc")
+    s.op("vnacal_new_solve $vn")
+    s.op("ci4=vnacal_add_calibration $vc \"two\" $vn")
+    s.op("vnacal_new_solve $vn")
+    s.op("ci5=vnacal_add_calibration $vc \"one\" $vn")
+    s.op("vnacal_find_calibration $vc \"one\"")
+    s.op("vnacal_delete_calibration $vc $ci4")
+    s.op("vnacal_new_solve $vn")
+    s.op("ci6=vnacal_add_calibration $vc \"three\" $vn")
     s.op("dump_vnacal $vc")
     return s.text()
 
